@@ -95,6 +95,7 @@ func runC05(res *hx.Result, rng *hx.Rng, tier string, outdir string) {
 		"objects of other interfaces as method result / parameter / signal payload; plain stream and hostile-identifier stream (one hostile identifier per package); every proxy also through WithContext, returned objects exercised as secondary objects; " +
 		"every stub/proxy pair with a signal or property also through a drawn sequence of Update/Set/Signal/Get/call steps (sequence stream: several properties and signals, 28 steps); " +
 		"sizes stream: every action carries a list or map, driven with one container of each value at 0, 1, 4095, 4096 entries; non-trivial = a struct used by two actions or a nested container; " +
+		"dynamic stream: any as parameter, result, signal payload, property, struct field, tuple member, list element and map value, every such action repeated once per kind of dynamic value (bool, 8 integer widths, float32/64, string, raw data, void, list of values, opaque struct / map / list, composite with a dynamic member) built with the constructors of type/value; in all streams half of the dynamic values are of a drawn kind; " +
 		"distinct by sha256 of the IDL text"
 	env, err := c05.NewEnv()
 	if err != nil {
@@ -102,9 +103,9 @@ func runC05(res *hx.Result, rng *hx.Rng, tier string, outdir string) {
 		os.Exit(1)
 	}
 	// the hostile stream walks through every identifier class in turn
-	nPlain, nHostile, nSeq, nSizes := 20, len(c05.HostileClasses), 5, 3
+	nPlain, nHostile, nSeq, nSizes, nDyn := 20, len(c05.HostileClasses), 5, 3, 2
 	if tier == "thorough" {
-		nPlain, nHostile, nSeq, nSizes = 210, 6*len(c05.HostileClasses), 40, 12
+		nPlain, nHostile, nSeq, nSizes, nDyn = 210, 6*len(c05.HostileClasses), 40, 12, 10
 	}
 	sw, over := c05probes(res, env)
 	var jobs []*c05job
@@ -124,6 +125,9 @@ func runC05(res *hx.Result, rng *hx.Rng, tier string, outdir string) {
 	}
 	for i := 0; i < nSizes; i++ {
 		jobs = append(jobs, &c05job{id: fmt.Sprintf("z%03d", i), pkg: c05.GenSizes(rng, fmt.Sprintf("zk%03d", i)), seed: rng.U64()})
+	}
+	for i := 0; i < nDyn; i++ {
+		jobs = append(jobs, &c05job{id: fmt.Sprintf("d%03d", i), pkg: c05.GenDynamic(rng, fmt.Sprintf("dk%03d", i)), seed: rng.U64()})
 	}
 	sem := make(chan struct{}, 8)
 	var wg sync.WaitGroup
